@@ -20,7 +20,10 @@ VERIF = scratch.VERIF
 # obligation regex -> (where, package, witness file under /verif/witness, test name filter)
 #   where = "<crate dir>"            : the witness becomes the integration test <crate dir>/tests/verif_<file> (public API only)
 #   where = "append:<repo rel path>" : the witness (a #[cfg(test)] module) is appended to that source file (private access)
+# entries: (obligation regex, crate dir | append:<file>, package, witness file, test filter[, property]); first match wins;
+# an entry with a 6th element applies only when the check runs for that property
 WITNESS = [
+    (r"search_rep::SearchFrag::repetition_fragment", "engine_core", "inkayaku_engine_core", "c11_repetition_flip.rs", "witness_c11_flip", "C11"),
     (r"uci_moves::Bitboard::san_suffix_fragment", "board", "inkayaku_board", "c05_check_detection.rs", "witness_c05_san"),
     (r"board_make::(Move::|Bitboard::)", "board", "inkayaku_board", "c03_make_unmake.rs", "witness_"),
     (r"Bitboard::(find_uci|make_uci|make_all_uci)", "board", "inkayaku_board", "c13_rejected_move.rs", "witness_find_uci|witness_make_uci"),
@@ -49,8 +52,11 @@ WITNESS = [
 ]
 
 
-def find_witness(obligation):
-    for rx, crate, pkg, fname, flt in WITNESS:
+def find_witness(obligation, prop=None):
+    for ent in WITNESS:
+        rx, crate, pkg, fname, flt = ent[:5]
+        if len(ent) > 5 and ent[5] != prop:
+            continue
         if re.search(rx, obligation):
             return crate, pkg, fname, flt
     return None
@@ -90,7 +96,7 @@ def build_replay(prop, v, path):
         rep["counterexample_replay"] = v.get("counterexample_replay")
         found = bool(v.get("counterexample_reproduced"))
     if not found:
-        w = find_witness(v["obligation"])
+        w = find_witness(v["obligation"], prop)
         if w:
             try:
                 rc, out, cmd = run_witness(*w)
@@ -122,7 +128,7 @@ def replay_file(path):
             return 1
         print("the recorded counterexample no longer fails on the current tree")
         return 0
-    w = find_witness(rep["obligation"])
+    w = find_witness(rep["obligation"], rep.get("property"))
     if w:
         rc, out, cmd = run_witness(*w)
         print(out[-3000:])
